@@ -116,6 +116,7 @@ func (w *World) probe(a app.App, ctx app.IOContext) error {
 		Task  string `command:"?task"`
 		Spawn string `command:"?spawn"`
 		Sched string `command:"?gosched"`
+		Read  string `command:"?readline"`
 	}
 	if err := ctx.Scope().InjectTo(&deps); err != nil {
 		return err
@@ -168,6 +169,18 @@ func (w *World) probe(a app.App, ctx app.IOContext) error {
 	fmt.Sscanf(deps.Sched, "%d", &g)
 	for i := 0; i < g; i++ {
 		vsched.Yield() // hands the processor over at no preemption cost (runtime.Gosched)
+	}
+	if deps.Read != "" {
+		// the command consumes the next line of ITS input (what follows its own line in the script)
+		var line []byte
+		buf := make([]byte, 1)
+		for {
+			if _, err := ctx.IO().In().Read(buf); err != nil || buf[0] == '\n' {
+				break
+			}
+			line = append(line, buf[0])
+		}
+		w.Events = append(w.Events, Event{w.tick(), "payload=" + string(line), deps.ID, deps.Task})
 	}
 	if deps.Hold != "" {
 		w.Inside[deps.Hold]--
@@ -258,7 +271,10 @@ func (w *World) Pip(name, body string, wait []string, lock commservices.LockMap,
 }
 
 // RunScript feeds a script to the terminal seam on a fresh child context of the root.
-func (w *World) RunScript(script string, scp app.Scope) error {
+func (w *World) RunScript(script string, scp app.Scope) error { return w.RunScriptPrompt(script, scp, "") }
+
+// RunScriptPrompt: the same with an interactive prompt.
+func (w *World) RunScriptPrompt(script string, scp app.Scope, prompt string) error {
 	if scp == nil {
 		scp = w.Root
 	}
@@ -268,7 +284,7 @@ func (w *World) RunScript(script string, scp app.Scope) error {
 		Err: gio.NewNilOutput(),
 		CWD: w.CWD,
 	}))
-	return w.Terminal.RunLoop(ctx, "")
+	return w.Terminal.RunLoop(ctx, prompt)
 }
 
 // EventsOf returns the events whose id starts with prefix.
